@@ -237,6 +237,40 @@ def parse_assumptions(out: str) -> Dict[str, List[str]]:
     return res
 
 
+# ---------------------------------------------------------------- extraction cross-check inside Coq
+
+def coq_crosscheck(ctx, name: str, imports: str, pairs, timeout: int = 600):
+    """Validate extraction + OCaml driver + codecs against the kernel's own evaluation: for each (lhs, rhs) pair of
+    Gallina texts - lhs a model call on an input of this run, rhs what the extracted driver answered - compile
+    `Example : lhs = rhs` closed by vm_compute.  A failure is reported as a broken correspondence."""
+    if not pairs:
+        return
+    os.makedirs(WORK, exist_ok=True)
+    path = os.path.join(WORK, "xcheck_%s.v" % name)
+    body = [imports, ""]
+    for i, (lhs, rhs) in enumerate(pairs):
+        body.append("Example xcheck_%d : %s = %s.\nProof. vm_compute. reflexivity. Qed." % (i, lhs, rhs))
+    with open(path, "w") as f:
+        f.write("\n".join(body) + "\n")
+    rc, out = sh(["timeout", str(timeout), "coqc", "-Q", os.path.join(COQ, "FA"), "FA", path], cwd=WORK, timeout=timeout + 30)
+    ctx.count("extraction_crosscheck", "examples", len(pairs))
+    if rc != 0:
+        ctx.fail("no-failing-input-found",
+                 "extraction cross-check broke: the OCaml driver's answers differ from the kernel's evaluation of the model (%s)" % name,
+                 {"correspondence": "extraction-vs-vm_compute", "file": path, "coq_output": out[-1500:]})
+    else:
+        ctx.notes.append("extraction cross-check: %d driver answers re-evaluated inside Coq by vm_compute, all equal" % len(pairs))
+    for ext in (".vo", ".vok", ".vos", ".glob"):
+        try:
+            os.remove(path[:-2] + ext)
+        except OSError:
+            pass
+    try:
+        os.remove(os.path.join(WORK, ".xcheck_%s.aux" % name))
+    except OSError:
+        pass
+
+
 # ---------------------------------------------------------------- model driver
 
 class Driver:
